@@ -260,6 +260,39 @@ E["C06"] = dict(
          "(tre-empty-path-anchor: a nullable sub-expression is skipped along one fixed empty path whose ^/$ assertions it inherits; both engines).",
     tech="Lean 4 proof of a specification matcher (leftmost-longest soundness and completeness) + bounded-exhaustive correspondence with both TRE engines and glibc")
 
+# ---- round 5 addenda: (old count text -> new count text, sentence appended to the claim, optional technique suffix)
+R5 = {}
+R5["C10"] = (("Props/C10.lean, 22", "Props/C10.lean 29 + Props/C10b.lean 11"),
+    "Round 5: a second translator pass (extract/unwind_wide.py) scans every function of lib/*.c; of 207 functions with two or more acquisition sites and a failure exit, "
+    "100 are established (180 tables for 285 acyclic paths in a second table language with main-path releases; ft_unwind_balanced, ft_failure_reported, wide_*), 5 translate but are "
+    "explained as not established, 102 are listed by name with the reason; a baseline file turns a function that stops satisfying the law into a violation. C10b proves the "
+    "GC-then-retry bound and the ENOMEM plumbing gem -> rtx -> hawk over whole call trees. The tables exposed four defects, all repaired (c9ad707, d48d699, 6d7630a - the former "
+    "finding oom:fnc-setretval-null-value -, 6437739). Quick-tier site coverage of the new tables by injected failures: 47 of 88 functions.")
+R5["C02"] = (("Props/C02.lean, 47 obligations", "Props/C02.lean, 69 obligations"),
+    "Round 5: a standing exhaustive grid print/printf x redirection operator x shape of the last member x shape of the target x parenthesised list x member count, every written "
+    "file or pipe read back inside the program and compared across hawk, gawk and mawk and the Lean interpreter (closes the round-4 miss as a class); all getline forms pairwise; output "
+    "pipes, input pipes and read-back after close are inside the reference interpreter; theorems for the missing getline rows, EOF, strnum comparison with antisymmetry, output order "
+    "across redirections, close/read-back specifications. The grid exposed the recorded finding print-redirection-after-low-precedence-member.")
+R5["C07"] = (("Props/C07.lean, 14", "Props/C07.lean, 32"),
+    "Round 5: call frames (hawk_rtx_callfun/evalcall/run_block as holder operations; call_balanced, calls_are_histories), per-generation soundness AND completeness of the collector "
+    "for arbitrary object graphs (ReachG; young_collect_complete/young_collect_sound), promotion, pressure/threshold counters, teardown from any invariant state; constants and the "
+    "collector's phase skeleton regenerated from val.c on every run (extract/gc_const.py, consts_match_source); oracle-only call-frame family (direct call / hawk::call x by-value/by-reference "
+    "parameter orders x return/error/exit); distinct_nontrivial is now a measured count of branch signatures.")
+TIE = ("Round 5: the integer arithmetic under these theorems is no longer tied by testing alone: extract/c2lean.py translates the C functions/fragments from clang's typed AST into "
+       "Gen/CFuns*.lean on every run and Props/%sTie.lean proves, for all inputs on the stated no-wrap domain, that the hand-written model functions equal the translated C (%s); a semantic "
+       "edit of those lines breaks a proof even when no generated case reaches it.")
+R5["C20"] = (("Props/C20.lean, 31", "Props/C20.lean 31 + Props/C20Tie.lean 8"), TIE % ("C20", "szlog2, getxfi, bdec, roundReq in alloc and realloc, the wrapped-size refusal, initSize"))
+R5["C19"] = (("Props/C19.lean, 30", "Props/C19.lean 30 + Props/C19Tie.lean 13"), TIE % ("C19", "the maxCapa tests, minimum capacity, 64-alignment, the doubling loop, the halving retry step, heap parent/child choice"))
+R5["C16"] = (("Props/C16.lean 30 + Props/C16Htb.lean 39", "Props/C16.lean 30 + Props/C16Htb.lean 39 + Props/C16Tie.lean 5"), TIE % ("C16", "htb initial capacity/factor/threshold, the growth rule and threshold of reorganize"))
+R5["C11"] = (("Props/C11.lean, 25", "Props/C11.lean 25 + Props/C11Tie.lean 9"), TIE % ("C11", "__cmp_ensure_not_equal for all hints, five leaf comparators, the CMP_ERROR test and sign mirror"))
+for _pid, (_cnt, _txt) in R5.items():
+    if _cnt:
+        assert _cnt[0] in E[_pid]["text"], (_pid, _cnt[0])
+        E[_pid]["text"] = E[_pid]["text"].replace(_cnt[0], _cnt[1])
+    E[_pid]["text"] += " " + _txt
+for _pid in ("C20", "C19", "C16", "C11"):
+    E[_pid]["tech"] += " + C-to-Lean translation of the integer arithmetic with kernel-checked equivalence to the model"
+
 claimed = sorted(E)
 checks = []
 for pid in claimed:
